@@ -473,3 +473,45 @@ pub fn spawn_delay_link(mut from: PipeReader, mut to: PipeWriter, latency: std::
         }
     })
 }
+
+
+/// Like `spawn_delay_link`, but the link also has a finite rate: every piece of at most `mtu` bytes takes
+/// `mtu_ms` of (virtual) time to put on the link before the next one is read, then `latency` to arrive.
+/// Together with a small capacity of the pipe being read this makes large writes take time.
+pub fn spawn_slow_link(mut from: PipeReader, mut to: PipeWriter, latency: std::time::Duration, mtu: usize, mtu_ms: u64) -> tokio::task::JoinHandle<()> {
+    use tokio::io::{AsyncReadExt, AsyncWriteExt};
+    let (tx, mut rx) = tokio::sync::mpsc::unbounded_channel::<(tokio::time::Instant, Option<Vec<u8>>)>();
+    tokio::spawn(async move {
+        let mut buf = vec![0u8; mtu.max(1)];
+        loop {
+            match from.read(&mut buf).await {
+                Ok(0) | Err(_) => {
+                    let _ = tx.send((tokio::time::Instant::now() + latency, None));
+                    break;
+                }
+                Ok(n) => {
+                    tokio::time::sleep(std::time::Duration::from_millis(mtu_ms)).await;
+                    if tx.send((tokio::time::Instant::now() + latency, Some(buf[..n].to_vec()))).is_err() {
+                        break;
+                    }
+                }
+            }
+        }
+    });
+    tokio::spawn(async move {
+        while let Some((at, item)) = rx.recv().await {
+            tokio::time::sleep_until(at).await;
+            match item {
+                Some(b) => {
+                    if to.write_all(&b).await.is_err() {
+                        break;
+                    }
+                }
+                None => {
+                    let _ = to.shutdown().await;
+                    break;
+                }
+            }
+        }
+    })
+}
